@@ -1,6 +1,12 @@
 from .harness import Mutant, edit_node, stmt_containing, compound_containing, to_pass, sub, is_call
 import ast
+def text_edit(old, new):
+    def edit(src):
+        return src.replace(old, new, 1) if old in src else None
+    return edit
 MUTANTS = [
+    Mutant('ie_orient_list', 'src/pharmpy/model/model.py', text_edit("ie = self._initial_individual_estimates.to_dict()", "ie = self._initial_individual_estimates.to_dict(orient='list')"), 'H6', 'index dropped'),
+    Mutant('to_dict_set_order', 'src/pharmpy/model/statements.py', text_edit("        comps = [comp for comp in self._g.nodes]", "        comps = [output, *_comps(self._g)]"), 'H4', 'set order in serialisation'),
     Mutant('key_rename_writer', 'src/pharmpy/model/parameters.py', edit_node('Parameters.to_dict', lambda n, seg: isinstance(n, ast.Constant) and seg == "'parameters'", lambda seg: "'params'"), 'H1', 'writer key renamed'),
     Mutant('column_record_key', 'src/pharmpy/model/datainfo.py', edit_node('DataInfo._to_dict', lambda n, seg: isinstance(n, ast.Constant) and seg == '"descriptor"', lambda seg: '"description"'), 'H1', 'inline column record differs'),
     Mutant('drop_field_from_dict', 'src/pharmpy/model/statements.py', edit_node('Compartment.to_dict', lambda n, seg: isinstance(n, ast.Attribute) and seg == 'self._lag_time', lambda seg: 'self._input'), 'H2', 'compared field not serialised'),
